@@ -467,7 +467,13 @@ where
 			let mut entry = entries[0].clone();
 			match entry.tx_type {
 				TxLogEntryType::TxSent => entry.tx_type = TxLogEntryType::TxSentCancelled,
-				TxLogEntryType::TxReceived => entry.tx_type = TxLogEntryType::TxReceivedCancelled,
+				// (an output recorded as spent that the chain still has unspent: the spend did
+				// not happen. If the entry linked to it is the one that *created* it - as in
+				// a wallet restored from its seed, or for an output never spent by this
+				// wallet - its being on chain is no reason to cancel that entry.)
+				TxLogEntryType::TxReceived if expected_status != OutputStatus::Spent => {
+					entry.tx_type = TxLogEntryType::TxReceivedCancelled
+				}
 				_ => {}
 			}
 			Some(entry)
